@@ -6,6 +6,10 @@ ids = [p['id'] for p in props]
 
 # id -> (level, technique, text, note)
 CLAIMED = {
+ "C34": ("exploration", "audit-table event log written by trigger bodies (tag, OLD image, NEW image) checked against a firing model after every statement",
+         "Random trigger sets (timing x event x granularity x WHEN, failing bodies) and DML histories; the audit rows of each statement are compared with the expected multiset of firings and row images, and failing triggers must fail the statement without changing the table.",
+         "Triggers are created through the executor API; UPDATE OF on an assigned-but-unchanged column may or may not fire."),
+
  "C33": ("exploration", "schema model (tables, columns, rows, indexes, constraints) + audit of catalog listing, storage listing, both index registries, declared columns and probe queries after every statement",
          "Random DDL/DML histories with name reuse and identifier-case variants; each statement's outcome and the complete observable schema state are compared with the model after every step.",
          "Outcomes on which SQL engines legitimately differ (case-sibling names, index-name scope, dropping a column in use) are accepted either way; the resulting state must still be coherent."),
